@@ -39,7 +39,11 @@ RULE = ('generated projects (static/shared/dual libraries, executables using the
         'rendered by the real Writer.write_shell) with Emit.emit_make_recipes false. System scenario, always run: 2-output build_step from gen.in with one consumer step per '
         'output, real configure + make: build, no-op build, touch gen.in + build (step and both consumers re-created), no-op build. '
         'Dependency-shape projects (projgen.generate_graph): every output named, declared DAG next to '
-        'the script; emitted edges of both backends vs the DAG, then touch of every source and of half the intermediates with real make')
+        'the script; emitted edges of both backends vs the DAG, then touch of every source and of half the intermediates with real make; '
+        'the shapes include copy_file of GENERATED files in the modes copy / symlink / hardlink (a symbolic link always, a link to a link, '
+        'links in other directories) with steps consuming the link, and a versioned shared library (real file, soname link, development '
+        'link) with an executable linking it; an output counts as re-created when its own time stamp (lstat) or that of the file it '
+        'denotes (stat) changed')
 TRUSTED = ('mtime build semantics: the real GNU Make 4.3 (system level); Make/MakeSem.v model for the generic theorems',
            'Graph/StampSem.v dmake (depth-first walk with cached mtimes; recipe kinds none / real / no-op, lag of the stamp) validated '
            'against GNU Make 4.3 on this run (R:stampsem, both rule shapes); which no-op recipes Make ran is read from make --trace '
@@ -1231,10 +1235,13 @@ def default_membership(rep, rng, idx):
 
 # ----------------------------------------------------------------------------- system level: dependency-shape projects
 def _mtimes(build, outs):
+    """What tells that an output was (re-)created: the time stamp of the directory entry itself (lstat: a symbolic link
+    that was made again) paired with the time stamp of the file it denotes (stat, which is what Make looks at: a link
+    whose file behind it was made again).  For anything but a symbolic link the two are the same number."""
     r = {}
     for o in outs:
         try:
-            r[o] = os.stat(os.path.join(build, o)).st_mtime_ns
+            r[o] = (os.lstat(os.path.join(build, o)).st_mtime_ns, os.stat(os.path.join(build, o)).st_mtime_ns)
         except OSError:
             r[o] = None
     return r
@@ -1391,7 +1398,16 @@ def graph_project(rep, rng, idx):
         if rcm != 0 or again:
             bad += rep.fail('a build right after a build re-created %r' % again, {'script': p.script(), 'recreated': again, 'make_output': mout[-800:]})
         built = set(o for o in prim if after[o] is not None)
-        touchables = [('src', f) for f in sources] + [('out', o) for st in G for o in st['outs'] if o in built and rng.random() < 0.5]
+        # (touching a link would touch the file behind it, a file with several names is touched under all of them: such
+        # outputs are changed only through their sources)
+        def plain_file(o):
+            st_ = os.lstat(os.path.join(s.build, o))
+            return not os.path.islink(os.path.join(s.build, o)) and st_.st_nlink == 1
+        touchables = [('src', f) for f in sources] + [('out', o) for st in G for o in st['outs']
+                                                      if o in built and rng.random() < 0.5 and plain_file(o)]
+        for st in G:
+            if st.get('mode'):
+                rep.count('graph:link step mode=%s%s' % (st['mode'], ' (with a consumer)' if any(st['out'] in x['consumes'] for x in G) else ''))
         for where, f in touchables:
             time.sleep(0.02)
             os.utime(os.path.join(s.src if where == 'src' else s.build, f), None)
@@ -1403,7 +1419,16 @@ def graph_project(rep, rng, idx):
             wants = [expected(name, False) & built, expected(name, True) & built]
             rep.case('graph-touch:%d:%s' % (idx, name), bool(wants[0]))
             rep.count('graph:touch ' + where)
-            if rcm == 0 and ran in wants:
+            # symbolic links that denote the touched file were 'changed' by the touch itself; Make has no reason to make
+            # them again (what consumes them must still re-run)
+            alias, grew = set(), True
+            while grew:
+                grew = False
+                for st in G:
+                    if st.get('mode') == 'symlink' and st['out'] not in alias and st['consumes'][0] in alias | {name}:
+                        alias.add(st['out'])
+                        grew = True
+            if rcm == 0 and (ran - alias) in [w - alias for w in wants]:
                 continue
             classes = ()
             lost = wants[0] - ran
@@ -1422,7 +1447,7 @@ def graph_project(rep, rng, idx):
         # nothing), then build again without the failure: over the two builds exactly the downstream set must have been
         # re-created - in particular the failed step and everything below it run in the second build - and a third
         # build does nothing
-        stubbed = set(st['out'] for st in G if not any(('copy_file(%r' % st['out']) in l for l in p.lines))   # cp is not the recorder
+        stubbed = set(st['out'] for st in G if not st.get('real_tool'))   # cp / ln are not the recorder
         multis = [st['out'] for st in G if st['multi'] and st['out'] in stubbed and st['out'] in built]
         others = sorted(o for o in stubbed & built if o not in multis)
         failing = multis + rng.sample(others, min(len(others), 2 if rep.tier != 'thorough' else 6))
